@@ -96,6 +96,9 @@ def ap_sizes(cls, k):
 
 
 def ap_theta(k):
+    if k == 3:      # the SAME bare number as id 1 in another unit: a different orientation (a setter that compares numbers only keeps stale caches)
+        import astropy.units as u
+        return 0.3 * u.deg
     return 0.3 if k == 1 else 1.1
 
 
